@@ -371,8 +371,12 @@ var exception_throw(var obj, const char* fmt, var args) {
 
   struct Exception* e = current(Exception);
   
-  e->obj = obj;
+  /*
+  ** Format first: showing an argument may itself raise and handle an
+  ** exception, which must not replace the object being thrown here.
+  */
   print_to_with(e->msg, 0, fmt, args);
+  e->obj = obj;
   
   if (Exception_Len(e) >= 1) {
     CELLO_VERIF_YIELD(7);
